@@ -164,6 +164,9 @@ type elWorld struct {
 	capQ     int
 	q        []any // nil entries stand for the loop's own start-ticker events
 	waiting  [4][]any
+	waitingLate [4][]any // deferred while the loop was re-adding deferred events: they wait for the next event of the type
+	inTick   bool
+	dispDepth int
 	dropped  []string
 	expected []elGroup
 	popOrder []int // ids of dispatched events, in the model's pop order
@@ -281,9 +284,7 @@ func (w *elWorld) invoked(h *elHandler, e any) {
 func (w *elWorld) register(typ, flags int) {
 	h := &elHandler{id: len(w.handlers), typ: typ, prio: flags&1 != 0, inAdd: flags&2 != 0, acts: flags&4 != 0, active: true,
 		actSeed: mix(w.p.Inner, uint64(len(w.handlers)))}
-	if h.inAdd {
-		h.acts = false
-	}
+	// (a run-in-AddEvent handler that acts only defers events: see act)
 	var opts []eventloop.HandlerOption
 	if h.prio {
 		opts = append(opts, eventloop.Prioritize())
@@ -310,7 +311,13 @@ func (w *elWorld) register(typ, flags int) {
 			<-w.gate
 		}
 		if h.acts && !w.runMode {
+			if !h.inAdd {
+				w.dispDepth++
+			}
 			w.act(h, e)
+			if !h.inAdd {
+				w.dispDepth--
+			}
 		}
 	}
 	switch typ {
@@ -329,6 +336,24 @@ func (w *elWorld) register(typ, flags int) {
 // act: what an acting handler does while the loop is dispatching (stepped mode only).
 func (w *elWorld) act(h *elHandler, e any) {
 	r := mix(h.actSeed, uint64(evID(e)))
+	if h.inAdd {
+		// a handler that runs inside AddEvent defers further events (half of the time). If this happens while
+		// the loop is re-adding the events deferred until type T, a new deferral until T belongs to the NEXT
+		// event of type T.
+		if r%2 == 0 && w.nextEv < 3000 {
+			ne := mkEv(int(r>>8)%3, w.nextEv)
+			w.nextEv++
+			until := int(r>>12) % 3
+			if w.inTick && w.dispDepth == 0 {
+				w.waitingLate[until] = append(w.waitingLate[until], ne)
+				w.st.Probes["c14-defer-during-release"]++
+			} else {
+				w.waiting[until] = append(w.waiting[until], ne)
+			}
+			w.delayReal(until, ne)
+		}
+		return
+	}
 	switch r % 4 {
 	case 0:
 		if w.nextEv < 3000 && r%3 != 0 {
@@ -405,6 +430,10 @@ func (w *elWorld) modelDispatchEnd(e any) {
 		w.add(d)
 		w.st.Probes["c14-deferred-released"]++
 	}
+	for i := range w.waitingLate {
+		w.waiting[i] = append(w.waiting[i], w.waitingLate[i]...)
+		w.waitingLate[i] = nil
+	}
 }
 
 func (w *elWorld) run() {
@@ -435,7 +464,9 @@ func (w *elWorld) run() {
 
 func (w *elWorld) tickOnce() {
 	e, ok := w.modelDispatchBegin()
+	w.inTick = true
 	handled := w.el.Tick(w.ctx)
+	w.inTick = false
 	if !ok {
 		if handled {
 			w.viol("C14/dup", "Tick handled an event although the reference queue is empty")
